@@ -394,6 +394,36 @@ fn cases(tier: Tier, seed: u64) -> Vec<Case> {
             push(&mut v, "sm9.verify", &m, name.into());
         }
     }
+    // SM2 signatures whose verification point [s]G + [r+s]P is the point at infinity (affine conversion of O)
+    {
+        let n = &sm2::params().n;
+        let dinv = f.d.modpow(&(n - 2u32), n);
+        for sv in [BigUint::one(), BigUint::from(2u32), n - 1u32, g.nonzero_below(n)] {
+            let t = (n - (&sv * &dinv) % n) % n;
+            let rv = (&t + n - &sv) % n;
+            let mut sig = a2::cand(&rv).to_vec();
+            sig.extend_from_slice(&a2::cand(&sv));
+            push(&mut v, "sm2.verify", &sig, "verification-point-is-infinity".into());
+        }
+    }
+    // hash-to-range inputs on and next to multiples of N-1 (the correction path of the quotient estimate)
+    {
+        let n9 = &sm9::params().n;
+        let nm1 = n9 - 1u32;
+        let two320: BigUint = BigUint::one() << 320usize;
+        let qmax = (&two320 - 1u32) / &nm1;
+        for q in [BigUint::one(), BigUint::from(2u32), (BigUint::one() << 64usize) + 7u32, qmax.clone(), &qmax - 1u32, g.below(&qmax)] {
+            for r in [BigUint::zero(), BigUint::one(), BigUint::from(5u32), &nm1 - 1u32] {
+                let ha = &q * &nm1 + &r;
+                if ha < two320 {
+                    let b = ha.to_bytes_be();
+                    let mut o = vec![0u8; 40 - b.len()];
+                    o.extend_from_slice(&b);
+                    push(&mut v, "sm9.mod_n_from_hash", &o, "multiple-of-N-1-plus-small".into());
+                }
+            }
+        }
+    }
     // boundary private keys
     let n = &sm2::params().n;
     for (name, dv) in [("d=0", BigUint::zero()), ("d=1", BigUint::one()), ("d=n-2", n - 2u32), ("d=n-1", n - 1u32), ("d=n", n.clone()), ("d=2^256-1", (BigUint::one() << 256usize) - 1u32), ("d=seeded", g.nonzero_below(&(n - 2u32)))] {
